@@ -94,7 +94,8 @@ impl Sigma {
         if rng.below(100) >= sym_prob {
             return SymExpr::Value(v);
         }
-        match rng.below(7) {
+        match rng.below(9) {
+            7 | 8 => self.minmax_expr(rng, v, 2),
             0 | 1 if v >= 0 => self.sym(rng, v, true),
             2 => self.sym(rng, v, false),
             3 if v <= 0 => -self.sym(rng, -v, true),
@@ -111,6 +112,70 @@ impl Sigma {
             _ => SymExpr::Value(v),
         }
     }
+    /// An expression containing `min` / `max` nodes whose value is `v`: `min(sym, const)`,
+    /// `max(sym, const)`, nested min/max, sums and products of those, with the symbol instantiated
+    /// at the boundary (the constant itself, +-1 around it, 0). These arise from Slice / Clip / Pad
+    /// arithmetic on shapes; folds based on `range()` must stay sound on them.
+    fn minmax_expr(&mut self, rng: &mut Rng, v: i32, depth: u32) -> SymExpr {
+        let mut sym_for = |sg: &mut Sigma, rng: &mut Rng, val: i32| {
+            let positive = val >= 0 && rng.chance(3, 4);
+            sg.sym(rng, val, positive)
+        };
+        match rng.below(if depth == 0 { 4 } else { 8 }) {
+            0 => {
+                // min(s, c) with s = v <= c
+                let c = v + *rng.pick(&[0, 1, 2, 100]);
+                let s = sym_for(self, rng, v);
+                if rng.chance(1, 2) { s.min(&SymExpr::Value(c)) } else { SymExpr::Value(c).min(&s) }
+            }
+            1 => {
+                // min(s, c) with c = v <= s
+                let sv = v + *rng.pick(&[0, 1, 3]);
+                let s = sym_for(self, rng, sv);
+                s.min(&SymExpr::Value(v))
+            }
+            2 => {
+                // max(s, c) with s = v >= c
+                let c = v - *rng.pick(&[0, 1, 2, 100]);
+                let s = sym_for(self, rng, v);
+                if rng.chance(1, 2) { s.max(&SymExpr::Value(c)) } else { SymExpr::Value(c).max(&s) }
+            }
+            3 => {
+                // max(s, c) with c = v >= s
+                let sv = if v >= 0 && rng.chance(1, 3) { 0 } else { v - *rng.pick(&[0, 1, 3]) };
+                let s = sym_for(self, rng, sv);
+                s.max(&SymExpr::Value(v))
+            }
+            4 => {
+                // nested: min(max-form, c2) / max(min-form, c2)
+                let inner = self.minmax_expr(rng, v, depth - 1);
+                if rng.chance(1, 2) {
+                    inner.min(&SymExpr::Value(v + *rng.pick(&[0, 1, 5])))
+                } else {
+                    inner.max(&SymExpr::Value(v - *rng.pick(&[0, 1, 5])))
+                }
+            }
+            5 => {
+                let k = rng.range_i64(-2, 2) as i32;
+                self.minmax_expr(rng, v - k, depth - 1) + SymExpr::Value(k)
+            }
+            6 => {
+                let k = *rng.pick(&[1i32, 2, -1]);
+                if v % k == 0 {
+                    self.minmax_expr(rng, v / k, depth - 1) * SymExpr::Value(k)
+                } else {
+                    self.minmax_expr(rng, v, depth - 1)
+                }
+            }
+            _ => {
+                // min of two symbols / max of two symbols
+                let other = v + *rng.pick(&[0, 1, 2]);
+                let a = sym_for(self, rng, v);
+                let b = sym_for(self, rng, other);
+                if rng.chance(1, 2) { a.min(&b) } else { b.min(&a) }
+            }
+        }
+    }
     fn map(&self) -> Vec<(&str, i32)> {
         self.syms.iter().map(|(n, v, _)| (n.as_str(), *v)).collect()
     }
@@ -119,9 +184,21 @@ impl Sigma {
     }
 }
 
-fn abstract_input(rng: &mut Rng, sg: &mut Sigma, inp: &Inp, sym_prob: u64) -> SymTensor {
+/// `focus`: `Some(true)` = every element becomes a min/max expression, `Some(false)` = every
+/// element stays a constant (used to confront range-based folds with boundary constants).
+fn abstract_input(rng: &mut Rng, sg: &mut Sigma, inp: &Inp, sym_prob: u64, focus: Option<bool>) -> SymTensor {
     if inp.seq.is_some() {
         return SymTensor::unknown("sequence");
+    }
+    if let Some(minmax) = focus {
+        if inp.shape.len() <= 1 && inp.vals.iter().all(|v| v.fract() == 0.0) {
+            let vals: Vec<SymExpr> = inp
+                .vals
+                .iter()
+                .map(|&v| if minmax { sg.minmax_expr(rng, v as i32, 2) } else { SymExpr::Value(v as i32) })
+                .collect();
+            return if inp.shape.is_empty() { SymTensor::from_scalar(vals.into_iter().next().unwrap()) } else { SymTensor::from_vec(vals) };
+        }
     }
     if rng.chance(1, 25) {
         return SymTensor::unknown("harness");
@@ -218,6 +295,11 @@ struct Ctx {
 }
 
 fn one_case(cx: &mut Ctx, rng: &mut Rng, case: &Case, sym_prob: u64) {
+    one_case_focus(cx, rng, case, sym_prob, None)
+}
+
+/// `focus = Some(k)`: input `k` carries min/max expressions, the other inputs constants.
+fn one_case_focus(cx: &mut Ctx, rng: &mut Rng, case: &Case, sym_prob: u64, focus: Option<usize>) {
     let loaded = hcommon::catch(|| load_case(case));
     let l = match loaded {
         Ok(Ok(l)) => l,
@@ -233,7 +315,14 @@ fn one_case(cx: &mut Ctx, rng: &mut Rng, case: &Case, sym_prob: u64) {
     *cx.with_infer.entry(case.key.clone()).or_insert(0) += 1;
     let mut sg = Sigma::default();
     let sym_inputs: Vec<Option<SymTensor>> =
-        case.inputs.iter().map(|i| i.as_ref().map(|i| abstract_input(rng, &mut sg, i, sym_prob))).collect();
+        case.inputs
+            .iter()
+            .enumerate()
+            .map(|(k, i)| i.as_ref().map(|i| abstract_input(rng, &mut sg, i, sym_prob, focus.map(|f| f == k))))
+            .collect();
+    if focus.is_some() {
+        cx.out.bucket("minmax_focus");
+    }
     let req = format!(
         "inf {} {} | {} # sigma={}",
         case.key,
@@ -413,6 +502,38 @@ fn run(args: &Args) {
             one_case(&mut cx, &mut rng, case, p);
         }
     }
+    // min/max-valued operands against boundary constants: Equal / Where / arithmetic
+    let freps = if args.thorough { 20_000 } else { 2_000 };
+    for rep in 0..freps {
+        let n = 1 + rng.usize_below(3);
+        let a: Vec<i64> = (0..n).map(|_| *rng.pick(&[0i64, 1, 2, 3, 4, 5, 6, -1, -2])).collect();
+        // the other operand: the same values, or +-1 around them, or 0
+        let b: Vec<i64> = a.iter().map(|&v| v + *rng.pick(&[0i64, 0, 0, 1, -1]) * if rng.chance(1, 8) { 0 } else { 1 }).collect();
+        let b: Vec<i64> = b.iter().map(|&v| if rng.chance(1, 10) { 0 } else { v }).collect();
+        let op = *rng.pick(&["Equal", "Equal", "Equal", "Add", "Sub", "Mul", "Div", "Where"]);
+        let focus = rep % 2;
+        let case = match op {
+            "Where" => {
+                let cond: Vec<i64> = (0..n).map(|_| *rng.pick(&[0i64, 1, 2])).collect();
+                // x / y carry the min/max expressions (inputs 1 or 2)
+                let c = Case::new("Where", vec![iv(&cond), iv(&a), iv(&b)]);
+                one_case_focus(&mut cx, &mut rng, &c, 50, Some(1 + focus));
+                continue;
+            }
+            "Div" => {
+                let b: Vec<i64> = b.iter().map(|&v| if v == 0 { 2 } else { v }).collect();
+                Case::new("Div", vec![iv(&a), iv(&b)])
+            }
+            op => {
+                if rng.chance(1, 4) {
+                    Case::new(op, vec![isc(a[0]), isc(b[0])])
+                } else {
+                    Case::new(op, vec![iv(&a), iv(&b)])
+                }
+            }
+        };
+        one_case_focus(&mut cx, &mut rng, &case, 50, Some(focus));
+    }
     let names = |m: &BTreeMap<String, u64>| m.keys().cloned().collect::<Vec<_>>().join(" ");
     cx.out.note(&format!("operators with as_infer_shapes exercised ({}): {}", cx.with_infer.len(), names(&cx.with_infer)));
     cx.out.note(&format!("operators checked against a successful execution ({}): {}", cx.checked.len(), names(&cx.checked)));
@@ -422,7 +543,7 @@ fn run(args: &Args) {
     cx.out.finish(
         "concrete single-operator cases (random shapes/attributes; value-level cases on small integer scalars and vectors incl. negative, zero, \
          length 0/1 operands) abstracted to symbolic inputs (fixed / mixed / mostly symbolic; dims as non-negative symbols, values as symbols, \
-         negated, offset, scaled and divided symbols; occasional unknown inputs); non-trivial = inference and execution both succeeded and at \
+         negated, offset, scaled and divided symbols, min/max of a symbol and a constant, nested min/max and sums / products of those instantiated at the constant, +-1 around it and 0; dedicated Equal / Where / arithmetic cases confronting such operands with boundary constants; occasional unknown inputs); non-trivial = inference and execution both succeeded and at \
          least one symbol was used; distinct by request text",
     );
 }
